@@ -99,6 +99,8 @@ pub struct KnownFinding {
     pub id: String,
     pub property: String,
     pub signature: String,
+    /// alternative to `signature`: a regular expression that must match the WHOLE signature
+    pub signature_regex: Option<regex::Regex>,
     pub what: String,
 }
 
@@ -125,14 +127,32 @@ fn load_known_findings() -> Vec<KnownFinding> {
                 .unwrap_or_default()
                 .to_string()
         };
+        let signature_regex = match entry.get("signature_regex").and_then(|v| v.as_str()) {
+            Some(r) => match regex::Regex::new(&format!("^(?:{r})$")) {
+                Ok(re) => Some(re),
+                Err(e) => {
+                    eprintln!("machinery: known_findings.json: bad signature_regex in {}: {e}", get("id"));
+                    std::process::exit(2);
+                }
+            },
+            None => None,
+        };
         out.push(KnownFinding {
             id: get("id"),
             property: get("property"),
             signature: get("signature"),
+            signature_regex,
             what: get("what"),
         });
     }
     out
+}
+
+fn known_matches(k: &KnownFinding, signature: &str) -> bool {
+    match &k.signature_regex {
+        Some(re) => re.is_match(signature),
+        None => !k.signature.is_empty() && signature_matches(&k.signature, signature),
+    }
 }
 
 fn signature_matches(pattern: &str, signature: &str) -> bool {
@@ -327,7 +347,7 @@ impl Report {
         if let Some(k) = self
             .known
             .iter()
-            .find(|k| signature_matches(&k.signature, signature))
+            .find(|k| known_matches(k, signature))
         {
             let mut inner = self.inner.lock().unwrap();
             let first = !inner.known_hits.contains_key(&k.id);
